@@ -5,7 +5,8 @@ C14 — model of Git indexing of the branch trees:
   filter (regular, executable, symlink are indexed; submodule links, directories and anything else are not),
   ignore matcher, branch merging per (path, blob) key (`addBranch`, shared with C13),
 * `ignore/ignore.go` `ParseIgnoreFile`, `Matcher.Match` (`parseIgnore`, `ignoreMatch`) over a model of
-  gobwas/glob restricted to literals, `?`, `*`, `**` with separator '/' (`gmatch`),
+  gobwas/glob with separator '/' (`parsePattern`, `gmatch`): literals, escapes, `?`, `*`, `**`, character classes
+  and brace alternatives of literal text,
 * `gitindex/catfile.go` `catfileReader.Next`, `Read` and `io.ReadFull` over it (`next`, `read`, `readFull`): the
   stream is what remains to be read from `git cat-file --batch`; how many bytes one `bufio.Reader.Read` returns is
   a parameter (`k`) of every read,
@@ -56,17 +57,12 @@ inductive Tok where
   | any1      -- `?`: one non-separator character
   | star      -- `*`: any run of non-separator characters
   | dstar     -- `**`: any run of characters
+  | cls (neg : Bool) (items : List (UInt8 × UInt8))  -- `[a-cx]` / `[!…]`: one character in (not in) the ranges
   deriving Repr, DecidableEq
 
 def sep : UInt8 := 47 -- '/'
 
-/-- glob tokens of a pattern (fragment: no classes, alternatives or escapes) -/
-def tokens : Bytes → List Tok
-  | [] => []
-  | 42 :: 42 :: r => .dstar :: tokens r
-  | 42 :: r => .star :: tokens r
-  | 63 :: r => .any1 :: tokens r
-  | c :: r => .lit c :: tokens r
+def inClass (items : List (UInt8 × UInt8)) (d : UInt8) : Bool := items.any fun r => r.1 ≤ d && d ≤ r.2
 
 /-- does the whole of `s` match the token list -/
 def gmatch : List Tok → Bytes → Bool
@@ -79,6 +75,10 @@ def gmatch : List Tok → Bytes → Bool
     match s with
     | d :: r => d != sep && gmatch ps r
     | [] => false
+  | .cls neg items :: ps, s =>
+    match s with
+    | d :: r => (inClass items d != neg) && gmatch ps r   -- a class may match the separator (gobwas does)
+    | [] => false
   | .star :: ps, s =>
     gmatch ps s ||
     match s with
@@ -90,6 +90,85 @@ def gmatch : List Tok → Bytes → Bool
     | _ :: r => gmatch (.dstar :: ps) r
     | [] => false
 termination_by ps s => ps.length + s.length
+
+/-! the pattern syntax of gobwas/glob, restricted to: literals, `\x` escapes, `?`, `*`, `**`, character classes
+    `[…]` / `[!…]` with ranges, and brace alternatives `{a,b}` of literal text (no wildcard or nesting inside braces:
+    gobwas itself mis-evaluates some of those).  Anything else parses to `none`. -/
+
+/-- one segment of a pattern: a token, or literal alternatives -/
+inductive Seg where
+  | tok (t : Tok)
+  | alts (as : List Bytes)
+  deriving Repr
+
+/-- one (possibly escaped) character of a class -/
+def classChar : Bytes → Option (UInt8 × Bytes)
+  | 92 :: c :: r => some (c, r)
+  | 92 :: [] => none
+  | c :: r => some (c, r)
+  | [] => none
+
+/-- the items of a class up to its closing `]` -/
+def parseClass : Nat → Bytes → List (UInt8 × UInt8) → Option (List (UInt8 × UInt8) × Bytes)
+  | 0, _, _ => none
+  | _, [], _ => none
+  | _, 93 :: r, acc => if acc.isEmpty then none else some (acc.reverse, r)
+  | f + 1, s, acc =>
+    match classChar s with
+    | none => none
+    | some (lo, 45 :: r2) =>
+      (match r2 with
+       | 93 :: _ => none
+       | _ =>
+         match classChar r2 with
+         | some (hi, r3) => parseClass f r3 ((lo, hi) :: acc)
+         | none => none)
+    | some (lo, r1) => parseClass f r1 ((lo, lo) :: acc)
+
+/-- literal alternatives up to the closing `}`: `,` separates, `\` escapes -/
+def parseAlts : Bytes → Bytes → List Bytes → Option (List Bytes × Bytes)
+  | [], _, _ => none
+  | 125 :: r, cur, acc => some ((cur.reverse :: acc).reverse, r)
+  | 44 :: r, cur, acc => parseAlts r [] (cur.reverse :: acc)
+  | 92 :: c :: r, cur, acc => parseAlts r (c :: cur) acc
+  | c :: r, cur, acc =>
+    if c == 42 || c == 63 || c == 91 || c == 123 then none else parseAlts r (c :: cur) acc
+
+def parseSegs : Nat → Bytes → Option (List Seg)
+  | _, [] => some []
+  | 0, _ => none
+  | f + 1, 42 :: 42 :: r => (parseSegs f r).map (.tok .dstar :: ·)
+  | f + 1, 42 :: r => (parseSegs f r).map (.tok .star :: ·)
+  | f + 1, 63 :: r => (parseSegs f r).map (.tok .any1 :: ·)
+  | f + 1, 92 :: c :: r => (parseSegs f r).map (.tok (.lit c) :: ·)
+  | _ + 1, 92 :: [] => some []
+  | f + 1, 91 :: r =>
+    let (neg, r') := match r with
+      | 33 :: r' => (true, r')
+      | _ => (false, r)
+    match parseClass (r'.length + 1) r' [] with
+    | some (items, rest) => (parseSegs f rest).map (.tok (.cls neg items) :: ·)
+    | none => none
+  | f + 1, 123 :: r =>
+    match parseAlts r [] [] with
+    | some (as, rest) => (parseSegs f rest).map (.alts as :: ·)
+    | none => none
+  | f + 1, c :: r => (parseSegs f r).map (.tok (.lit c) :: ·)
+
+/-- brace expansion: every choice of alternatives gives one token list -/
+def expand : List Seg → List (List Tok)
+  | [] => [[]]
+  | .tok t :: r => (expand r).map (t :: ·)
+  | .alts as :: r => as.flatMap fun a => (expand r).map (a.map Tok.lit ++ ·)
+
+/-- a compiled pattern: the token lists of its brace expansion (none outside the modelled fragment) -/
+def parsePattern (l : Bytes) : List (List Tok) :=
+  match parseSegs (l.length + 1) l with
+  | some segs => expand segs
+  | none => []
+
+/-- `glob.Glob.Match` -/
+def patMatch (pat : List (List Tok)) (s : Bytes) : Bool := pat.any fun ts => gmatch ts s
 
 def isSpace (c : UInt8) : Bool := c == 32 || c == 9 || c == 13 || c == 10 || c == 11 || c == 12
 
@@ -116,20 +195,20 @@ def stripSlash : Bytes → Bytes
   | l => l
 
 /-- one line of the ignore file → pattern (none: blank or comment) -/
-def parseLine (line : Bytes) : Option (List Tok) :=
+def parseLine (line : Bytes) : Option (List (List Tok)) :=
   let l := trimSpace line
   if l.isEmpty then none
   else if l.head? == some 35 then none
   else
     let l := stripSlash l
     let l := if l.any isGlobChar then l else l ++ [42, 42]
-    some (tokens l)
+    some (parsePattern l)
 
 /-- `ParseIgnoreFile` -/
-def parseIgnore (file : Bytes) : List (List Tok) := (splitLines file).filterMap parseLine
+def parseIgnore (file : Bytes) : List (List (List Tok)) := (splitLines file).filterMap parseLine
 
 /-- `Matcher.Match` -/
-def ignoreMatch (pats : List (List Tok)) (path : Bytes) : Bool := pats.any fun p => gmatch p path
+def ignoreMatch (pats : List (List (List Tok))) (path : Bytes) : Bool := pats.any fun p => patMatch p path
 
 /-! ## the cat-file stream -/
 
